@@ -5,6 +5,7 @@ go 1.22.5
 require (
 	github.com/Khan/genqlient v0.0.0
 	github.com/vektah/gqlparser/v2 v2.5.19
+	golang.org/x/tools v0.24.0
 )
 
 require (
@@ -15,7 +16,6 @@ require (
 	github.com/google/uuid v1.6.0 // indirect
 	golang.org/x/mod v0.20.0 // indirect
 	golang.org/x/sync v0.8.0 // indirect
-	golang.org/x/tools v0.24.0 // indirect
 	gopkg.in/yaml.v2 v2.4.0 // indirect
 )
 
